@@ -27,7 +27,9 @@ fn envs(r: &mut Rng) -> String {
 }
 
 pub(crate) fn gen(r: &mut Rng) -> Case {
-    let word = rand_word(r, &WordCfg { max_sylls: 5, ..WordCfg::default() });
+    let mut word = rand_word(r, &WordCfg { max_sylls: 5, ..WordCfg::default() });
+    // now and then a run longer than overlong (four or five copies - what two long vowels leave when a boundary between them goes)
+    if r.chance(1, 8) { word = word.replacen('ː', if r.chance(1, 2) { "ːːː" } else { "ːːːː" }, 1); }
     if r.chance(3, 5) {
         let k = r.range(1, 2);
         let ins: Vec<&str> = (0..k).map(|_| *r.pick(&SEG_IN)).collect();
